@@ -315,6 +315,21 @@ fn shift_counts() -> Vec<i32> {
     (-33..=65).collect()
 }
 
+fn kind_of(n: SimpleNumber) -> &'static str {
+    match n {
+        SimpleNumber::Integer(_) => "int",
+        SimpleNumber::Float(_) => "float",
+    }
+}
+
+fn wit2(op: Op, a: SimpleNumber, b: SimpleNumber) -> String {
+    format!("{}({},{})", op.name(), kind_of(a), kind_of(b))
+}
+
+fn wit1(op: Op, a: SimpleNumber) -> String {
+    format!("{}({})", op.name(), kind_of(a))
+}
+
 fn num_show(n: SimpleNumber) -> String {
     match n {
         SimpleNumber::Integer(i) => format!("{}", i),
@@ -341,7 +356,7 @@ fn check_direct2(cx: &mut Ctx, op: Op, a: SimpleNumber, b: SimpleNumber) {
     let e = oracle2(op, a, b);
     let detail = || json!({"mode": "direct", "op": op.name(), "a": num_json(a), "b": num_json(b), "shown": format!("{}({}, {})", op.name(), num_show(a), num_show(b)), "expected": format!("{:?}", e)});
     match guard(|| op.apply2(a, b)) {
-        Err(p) => cx.violation(&format!("panic[{}]", panic_kind(&p)), op.name(), detail()),
+        Err(p) => cx.violation(&format!("panic[{}]", panic_kind(&p)), &wit2(op, a, b), detail()),
         Ok(got) => {
             if !matches(&e, &got) {
                 let g = match got {
@@ -351,7 +366,7 @@ fn check_direct2(cx: &mut Ctx, op: Op, a: SimpleNumber, b: SimpleNumber) {
                 };
                 let mut d = detail();
                 d["got"] = json!(format!("{:?}", got));
-                cx.violation(&class(&e, &g), op.name(), d);
+                cx.violation(&class(&e, &g), &wit2(op, a, b), d);
             }
         }
     }
@@ -365,7 +380,7 @@ fn check_direct1(cx: &mut Ctx, op: Op, a: SimpleNumber) {
     let e = oracle1(op, a);
     let detail = || json!({"mode": "direct1", "op": op.name(), "a": num_json(a), "shown": format!("{}({})", op.name(), num_show(a)), "expected": format!("{:?}", e)});
     match guard(|| op.apply1(a)) {
-        Err(p) => cx.violation(&format!("panic[{}]", panic_kind(&p)), op.name(), detail()),
+        Err(p) => cx.violation(&format!("panic[{}]", panic_kind(&p)), &wit1(op, a), detail()),
         Ok(got) => {
             if !matches(&e, &got) {
                 let g = match got {
@@ -375,7 +390,7 @@ fn check_direct1(cx: &mut Ctx, op: Op, a: SimpleNumber) {
                 };
                 let mut d = detail();
                 d["got"] = json!(format!("{:?}", got));
-                cx.violation(&class(&e, g), op.name(), d);
+                cx.violation(&class(&e, g), &wit1(op, a), d);
             }
         }
     }
@@ -395,6 +410,7 @@ fn check_instr<D: Subject>(cx: &mut Ctx, op: Op, a: SimpleNumber, b: Option<Simp
         json!({"mode": "instr", "impl": D::NAME, "op": op.name(), "a": num_json(a), "b": b.map(num_json),
                "shown": format!("{} {}({}, {:?})", D::NAME, op.name(), num_show(a), b.map(num_show)), "expected": format!("{:?}", e)})
     };
+    let wit = format!("{}/{}", D::NAME, match b { Some(b) => wit2(op, a, b), None => wit1(op, a) });
     let mut d = D::fresh(Host::none());
     let r = guard(|| -> Result<V, String> {
         // some unrelated values first so that addresses are not trivially 0/1
@@ -434,17 +450,17 @@ fn check_instr<D: Subject>(cx: &mut Ctx, op: Op, a: SimpleNumber, b: Option<Simp
         Ok(get(&d, top))
     });
     match r {
-        Err(p) => cx.violation(&format!("instr-panic[{}]", panic_kind(&p)), &format!("{}/{}", D::NAME, op.name()), detail()),
+        Err(p) => cx.violation(&format!("instr-panic[{}]", panic_kind(&p)), &wit, detail()),
         Ok(Err(m)) => {
             let mut dd = detail();
             dd["got"] = json!(m);
-            cx.violation("instr-error", &format!("{}/{}", D::NAME, op.name()), dd)
+            cx.violation("instr-error", &wit, dd)
         }
         Ok(Ok(v)) => {
             if !matches_v(&e, &v) {
                 let mut dd = detail();
                 dd["got"] = json!(v.show());
-                cx.violation(&format!("instr-{}", class(&e, &format!("{:?}", v.type_of()).to_lowercase())), &format!("{}/{}", D::NAME, op.name()), dd);
+                cx.violation(&format!("instr-{}", class(&e, &format!("{:?}", v.type_of()).to_lowercase())), &wit, dd);
             }
         }
     }
